@@ -67,6 +67,35 @@ impl Request {
             self.method@ == method@ && !deserializes::<P>(self.params) ==> (r matches Err(e) && e is JsonError),
     { unimplemented!() }
 }
+impl Notification {
+    /// lsp_server (msg.rs): as Request::extract, without an id
+    #[verifier::external_body]
+    pub fn extract<P>(self, method: &str) -> (r: Result<P, ExtractError<Notification>>)
+        ensures
+            self.method@ != method@ ==> (r matches Err(e) && e == ExtractError::MethodMismatch(self)),
+            self.method@ == method@ ==> (r is Ok <==> deserializes::<P>(self.params)),
+            self.method@ == method@ && r is Err ==> (r matches Err(e) && e is JsonError),
+    { unimplemented!() }
+}
+/// lsp_types::{CancelParams, NumberOrString}
+pub enum NumberOrString { Number(i32), String(String) }
+pub struct CancelParams { pub id: NumberOrString }
+impl vstd::std_specs::convert::FromSpecImpl<i32> for RequestId {
+    open spec fn obeys_from_spec() -> bool { false }
+    uninterp spec fn from_spec(v: i32) -> RequestId;
+}
+impl From<i32> for RequestId {
+    #[verifier::external_body]
+    fn from(v: i32) -> RequestId { unimplemented!() }
+}
+impl vstd::std_specs::convert::FromSpecImpl<String> for RequestId {
+    open spec fn obeys_from_spec() -> bool { false }
+    uninterp spec fn from_spec(v: String) -> RequestId;
+}
+impl From<String> for RequestId {
+    #[verifier::external_body]
+    fn from(v: String) -> RequestId { unimplemented!() }
+}
 impl From<Response> for Message {
     fn from(r: Response) -> (m: Message) ensures m == Message::Response(r) { Message::Response(r) }
 }
@@ -98,8 +127,16 @@ pub struct Shared {
     pub mx: Ghost<int>,
     pub cancellations: Ghost<Map<RequestId, int>>,
     pub init: Ghost<Seq<RequestId>>,
+    /// every message `AsyncConnection::recv` has handed to the main loop, in order
+    pub recv: Ghost<Seq<Message>>,
+    /// every message that was handed to `handle_message`, in call order (appended by a ghost statement at the top of its body)
+    pub handled: Ghost<Seq<Message>>,
 }
-pub open spec fn same_ids(a: &Shared, b: &Shared) -> bool { a.chan == b.chan && a.mx == b.mx && a.init == b.init }
+pub open spec fn same_ids(a: &Shared, b: &Shared) -> bool {
+    a.chan == b.chan && a.mx == b.mx && a.init == b.init && a.recv == b.recv && a.handled == b.handled
+}
+/// the identities of the channel and the mutex (the two logs `recv` / `handled` and everything else may differ)
+pub open spec fn same_ids_but_logs(a: &Shared, b: &Shared) -> bool { a.chan == b.chan && a.mx == b.mx }
 
 /// crossbeam_channel::Sender / Receiver of the connection
 #[verifier::external_body]
@@ -250,8 +287,18 @@ impl ServerContextSnapshot {
 /// `Box<dyn Error + Sync + Send>`: the error value is opaque (rule `c24-error-type-opaque`)
 #[verifier::external_body]
 pub struct BoxedError { _p: () }
-/// lsp_types::request::Request (imported as LspRequest)
+/// `?` on an ExtractError boxes it (`impl Error for ExtractError<Request / Notification>` in lsp_server)
+impl<T> vstd::std_specs::convert::FromSpecImpl<ExtractError<T>> for BoxedError {
+    open spec fn obeys_from_spec() -> bool { false }
+    uninterp spec fn from_spec(v: ExtractError<T>) -> BoxedError;
+}
+impl<T> From<ExtractError<T>> for BoxedError {
+    #[verifier::external_body]
+    fn from(e: ExtractError<T>) -> BoxedError { unimplemented!() }
+}
+/// lsp_types::request::Request (imported as LspRequest) and lsp_types::notification::Notification (imported as LspNotification)
 pub trait LspRequest { type Params; type Result; const METHOD: &'static str; }
+pub trait LspNotification { type Params; const METHOD: &'static str; }
 
 pub enum Route { Known(bool), Unknown }
 
@@ -288,7 +335,9 @@ pub open spec fn init_answered(a: &Shared, b: &Shared, pending: bool) -> bool {
     // ... and the k-th new message is a response for the k-th id handed out
     &&& forall|j: int| s0 <= j < b.sent@.len() ==> (#[trigger] b.sent@[j] matches Message::Response(x) && x.id == b.init@[j - s0 + i0])
 }
-pub open spec fn same_ids_but_init(a: &Shared, b: &Shared) -> bool { a.chan == b.chan && a.mx == b.mx && a.cancellations == b.cancellations }
+pub open spec fn same_ids_but_init(a: &Shared, b: &Shared) -> bool {
+    a.chan == b.chan && a.mx == b.mx && a.cancellations == b.cancellations && a.recv == b.recv && a.handled == b.handled
+}
 /// the context's handles are the ones the shared state describes
 pub open spec fn ctx_wf(ctx: &ServerContext, st: &Shared) -> bool {
     ctx.conn.sender.chan() == st.chan@ && ctx.cancellations.id() == st.mx@
@@ -312,10 +361,18 @@ pub open spec fn answered(req: Request, a: &Shared, b: &Shared) -> bool {
 
 // ---- shims for handle_message: what it calls besides the dispatcher -------------------------------------------------------------------
 #[verifier::external_body]
-pub struct ServerMessageProcessor { _p: () }
-#[verifier::external_body]
 pub struct AsyncConnection { _p: () }
 impl AsyncConnection {
+    /// server/connection.rs: `self.receiver.recv().await` on the tokio channel fed by the reader thread: the next client message, None when
+    /// the client is gone. Ghost: the message handed out is appended to `st.recv`. (tokio: this recv is cancel safe — when the surrounding
+    /// `timeout` elapses no message has been taken; the shim of `timeout` below says so.)
+    #[verifier::external_body]
+    pub fn recv(&mut self, st: &mut Shared) -> (r: Option<Message>)
+        ensures
+            final(st).sent == old(st).sent, final(st).cancellations == old(st).cancellations, final(st).handled == old(st).handled,
+            final(st).chan == old(st).chan, final(st).mx == old(st).mx, final(st).init == old(st).init,
+            match r { Some(m) => final(st).recv@ == old(st).recv@.push(m), None => final(st).recv == old(st).recv },
+    { unimplemented!() }
     /// server/connection.rs, by its text (NOT under proof here): `if req.method != "shutdown" { return Ok(false); }` — nothing sent;
     /// otherwise `Response::new_ok(req.id.clone(), ())` is handed to the connection's sender, once, and the fn returns Ok(true) after the
     /// `exit` notification, or Err (unexpected message / closed channel / 30 s timeout). Never Ok(false) for `shutdown`.
@@ -332,16 +389,90 @@ impl ServerContext {
     #[verifier::external_body]
     pub fn close(&self) { }
 }
-/// notifications and client responses: no contract here (see not_covered); they may hand messages to the client
-#[verifier::external_body]
-pub fn on_notification_handler(notification: Notification, server_context: &mut ServerContext, st: &mut Shared) -> (r: Result<(), BoxedError>)
-    ensures *final(server_context) == *old(server_context),
-{ unimplemented!() }
+/// client responses (answers to the server's own requests): opaque
 #[verifier::external_body]
 pub fn on_response_handler(response: Response, server_context: &mut ServerContext, st: &mut Shared) -> (r: Result<(), BoxedError>)
-    ensures *final(server_context) == *old(server_context),
+    ensures *final(server_context) == *old(server_context), same_ids(&*old(st), &*final(st)),
 { unimplemented!() }
 pub mod context { pub use super::ServerContext; }
+pub mod tokio { pub mod time {
+    #[verifier::external_body]
+    pub struct Duration { _p: () }
+    impl Duration {
+        #[verifier::external_body]
+        pub fn from_millis(ms: u64) -> Duration { unimplemented!() }
+    }
+    #[verifier::external_body]
+    pub struct Elapsed { _p: () }
+    /// tokio::time::timeout around a (cancel-safe) `recv`, sequential form: the value the future produced is passed through; `Err(Elapsed)`
+    /// only when the future had produced nothing — a message that `recv` handed out is never dropped by the timeout
+    #[verifier::external_body]
+    pub fn timeout<T>(duration: Duration, value: Option<T>) -> (r: Result<Option<T>, Elapsed>)
+        ensures r matches Ok(x) ==> x == value, r is Err ==> value is None,
+    { unimplemented!() }
+} }
+pub mod oneshot {
+    /// tokio::sync::oneshot::Receiver: only `try_recv` is used (completion signal of the initialization task)
+    #[verifier::external_body]
+    #[verifier::reject_recursive_types(T)]
+    pub struct Receiver<T> { _p: core::marker::PhantomData<T> }
+    impl<T> Receiver<T> {
+        #[verifier::external_body]
+        pub fn try_recv(&mut self) -> Result<T, error::TryRecvError> { unimplemented!() }
+    }
+    pub mod error { pub enum TryRecvError { Empty, Closed } }
+}
+/// std::mem::take on a Vec (rule c24-mem-take)
+#[verifier::external_body]
+pub fn vx_mem_take<T>(v: &mut Vec<T>) -> (r: Vec<T>)
+    ensures r@ == old(v)@, final(v)@.len() == 0,
+{ unimplemented!() }
+
+// ---- the queueing path: vocabulary -------------------------------------------------------------------------------------------------------
+/// can_process_during_init, as documented there: client responses, `$/cancelRequest` and `initialized` are handled while the workspace
+/// loads; every request (and every other notification) waits in `pending_messages`
+pub open spec fn allowed_during_init(m: Message) -> bool {
+    match m {
+        Message::Response(_) => true,
+        Message::Notification(n) => n.method@ == "$/cancelRequest"@ || n.method@ == "initialized"@,
+        Message::Request(_) => false,
+    }
+}
+/// the messages of `s` that have to wait, in order / the ones handled at once, in order
+pub open spec fn deferred(s: Seq<Message>) -> Seq<Message>
+    decreases s.len()
+{
+    if s.len() == 0 { Seq::empty() }
+    else if allowed_during_init(s.last()) { deferred(s.drop_last()) }
+    else { deferred(s.drop_last()).push(s.last()) }
+}
+pub open spec fn immediate(s: Seq<Message>) -> Seq<Message>
+    decreases s.len()
+{
+    if s.len() == 0 { Seq::empty() }
+    else if allowed_during_init(s.last()) { immediate(s.drop_last()).push(s.last()) }
+    else { immediate(s.drop_last()) }
+}
+pub proof fn lemma_split_push(s: Seq<Message>, m: Message)
+    ensures
+        deferred(s.push(m)) == (if allowed_during_init(m) { deferred(s) } else { deferred(s).push(m) }),
+        immediate(s.push(m)) == (if allowed_during_init(m) { immediate(s).push(m) } else { immediate(s) }),
+{
+    assert(s.push(m).drop_last() =~= s);
+    assert(s.push(m).last() == m);
+}
+pub proof fn lemma_prefix_concat(a: Seq<Message>, b: Seq<Message>, k: int)
+    requires 0 <= k <= b.len(),
+    ensures (a + b.take(k)).is_prefix_of(a + b),
+{
+    assert((a + b).take((a + b.take(k)).len() as int) =~= a + b.take(k));
+}
+pub open spec fn new_recv(a: &Shared, b: &Shared) -> Seq<Message> { b.recv@.skip(a.recv@.len() as int) }
+/// the order in which the main loop hands the received messages `r` to handle_message when the first `n1` of them arrive during
+/// initialization: the allowed ones of those at once, then the queued ones, then the rest as it arrives
+pub open spec fn handling_order(r: Seq<Message>, n1: int) -> Seq<Message> {
+    immediate(r.take(n1)) + deferred(r.take(n1)) + r.skip(n1)
+}
 
 // ---- extracted from /repo ---------------------------------------------------------------------------------------------------------
 //@@ ServerContext
@@ -356,8 +487,24 @@ impl ServerContext {
 
 //@@ run_ls::initialize
 
+//@@ handle_cancel
+
+//@@ on_notification_handler
+
+//@@ ServerMessageProcessor
+//@@ LspServer
 impl ServerMessageProcessor {
+    //@@ ServerMessageProcessor::can_process_during_init
+    //@@ ServerMessageProcessor::check_initialization_complete
     //@@ ServerMessageProcessor::handle_message
+    //@@ ServerMessageProcessor::process_message
+    //@@ ServerMessageProcessor::process_pending_messages
+//@@GENERATED havoc ServerMessageProcessor
+}
+impl LspServer {
+    //@@ LspServer::wait_for_initialization
+    //@@ LspServer::run
+//@@GENERATED havoc LspServer
 }
 
 } // verus!
